@@ -70,7 +70,7 @@ def run(tier):
     gs += [gram.random_grammar(r, i, recovery=True, fallible=False) for i in range(nrand)]
     gs = [g for g in gs if g.recovery]
     c = lrcheck.prepare(gs, modes=("lane", "lalr") if tier == "quick" else ("lane", "lr1", "lalr"))
-    cobl, cdis, failing = lrcheck.certify(PROP, rep, c, parts=("shape", "exact", "terminates"), name="c16cert")
+    cobl, cdis, failing = lrcheck.certify(PROP, rep, c, parts=("shape", "complete", "exact", "start_eof_only", "terminates"), name="c16cert")
     per = 24 if tier == "quick" else 80
     cases = []
     for e in c.ok:
